@@ -20,7 +20,7 @@ let eval (pts : int array array) (kk : int) =
     let pl = leaf_points t in
     let aok = ref true in
     let au copy q ub = (if not (valid_b dfun pl kn copy q ub) then aok := false); true in
-    (match ct_query dfun kn au (ct_fuel t) t with
+    (match ct_query false dfun kn au (ct_fuel t) t with
      | None -> (true, true)
      | Some (rows, _) ->
        let complete = List.for_all (fun (q, cands) -> cand_complete_b dfun nn q (nat_of_int (kk - 1)) cands) rows
